@@ -74,42 +74,44 @@ func IsNil(x any) bool {
 	return false
 }
 
-// Concurrently runs f once sequentially and then in two goroutines at the same time, and
-// requires the observation logs (Observe) of all three runs to be identical. The symbolic engine
-// runs f once (the write monitor covers interleavings by reduction, see DESIGN C19).
+// Concurrently runs f in two goroutines at the same time and then once more sequentially, and
+// requires the observation logs (Observe) of all three runs to be identical. The two goroutines
+// are released by one barrier and do not synchronise with each other inside f (Observe reads a map
+// that is read-only while they run), so the race detector sees every conflicting access of the two
+// runs as unordered whatever the actual timing. The symbolic engine runs f once (the write monitor
+// covers interleavings by reduction, see DESIGN C19).
 func Concurrently(f func()) {
-	run := func() []int {
-		obsMu.Lock()
-		obs = nil
-		obsMu.Unlock()
-		f()
-		obsMu.Lock()
-		defer obsMu.Unlock()
-		return append([]int(nil), obs...)
-	}
-	seq := run()
-	var wg sync.WaitGroup
-	results := make([][]int, 2)
+	var wg, ready sync.WaitGroup
+	start := make(chan struct{})
+	var locals [2][]int
+	var ids [2]uint64
 	panics := make([]any, 2)
 	for g := 0; g < 2; g++ {
 		wg.Add(1)
+		ready.Add(1)
 		go func(g int) {
 			defer wg.Done()
 			defer func() { panics[g] = recover() }()
-			var local []int
-			localObs.Store(goid(), &local)
-			defer localObs.Delete(goid())
+			ids[g] = goid()
+			ready.Done()
+			<-start
 			f()
-			results[g] = local
 		}(g)
 	}
+	ready.Wait()
+	slots = map[uint64]*[]int{ids[0]: &locals[0], ids[1]: &locals[1]}
+	close(start)
 	wg.Wait()
+	slots = nil
 	for _, p := range panics {
 		if p != nil {
 			panic(p)
 		}
 	}
-	for _, r := range results {
+	obs = nil
+	f()
+	seq := obs
+	for _, r := range locals {
 		if len(r) != len(seq) {
 			panic(AssertFailed{"C19: concurrent run observed a different number of results"})
 		}
@@ -122,21 +124,19 @@ func Concurrently(f func()) {
 }
 
 var (
-	obsMu    sync.Mutex
-	obs      []int
-	localObs sync.Map
+	obs   []int
+	slots map[uint64]*[]int
 )
 
 // Observe records a result of the current run.
 func Observe(x int) {
-	if p, ok := localObs.Load(goid()); ok {
-		l := p.(*[]int)
-		*l = append(*l, x)
+	if slots != nil {
+		if l, ok := slots[goid()]; ok {
+			*l = append(*l, x)
+		}
 		return
 	}
-	obsMu.Lock()
 	obs = append(obs, x)
-	obsMu.Unlock()
 }
 
 func goid() uint64 {
